@@ -147,3 +147,18 @@ Example c18_expr_example :
   pr L e3 = [TOp "not"; TNum 2; TOp "^"; TNum 3] /\
   ExprParse.parse L 50 L (pr L e1) = Some (e1, []) /\ ExprParse.parse L 50 L (pr L e3) = Some (e3, []).
 Proof. vm_compute. repeat split. Qed.
+
+(* BEGIN PINS (tools/repin.py) *)
+From WTP Require Import Gen.GenPins.
+Module Pins.
+Import String.
+(* The models of this property were transcribed from: parserfns.py:expr_fn, parserfns.py:padleft_fn, parserfns.py:padright_fn, parserfns.py:sub_fn, parserfns.py:pos_fn, parserfns.py:rpos_fn, parserfns.py:len_fn, parserfns.py:replace_fn, parserfns.py:explode_fn, parserfns.py:plural_fn, parserfns.py:formatnum_fn, parserfns.py:_formatnum_reverse.
+   Gen/GenPins.v holds the digests of these functions in the current source (translate/pins.py: syntax tree without
+   docstrings, comments and layout).  A different digest means that the model is no longer known to describe the
+   code; the check then reports the broken tie and looks for a failing input. *)
+Theorem c18_models_describe_the_current_source :
+  (pin_expr_fn, pin_padleft_fn, pin_padright_fn, pin_sub_fn, pin_pos_fn, pin_rpos_fn, pin_len_fn, pin_replace_fn, pin_explode_fn, pin_plural_fn, pin_formatnum_fn, pin_formatnum_reverse) = ("7b95c503df39ed86", "af76a6cfa85233db", "4c0c09afadc2ab5d", "edf0b97f7b767f47", "20a163e2457acb95", "d7f6cf63602e2056", "b97c8ba4c89b459e", "e8344fb57c5156d0", "b993426ab29e33ac", "0a3d0c777f88d6ae", "5a6420f13329d007", "72f43b2c47d556e4")%string.
+Proof. reflexivity. Qed.
+Print Assumptions c18_models_describe_the_current_source.
+End Pins.
+(* END PINS *)
